@@ -238,6 +238,10 @@ Section Touch.
   Proof.
     intros Hp Hmk. unfold do_copyfile.
     destruct src; try (apply pres_fail; assumption).
+    apply pres_bind; [assumption | apply pres_query; assumption | intros il].
+    apply pres_bind; [assumption | | intros _].
+    { destruct il; [|apply pres_ret; assumption].
+      apply pres_mutate'; [assumption|]. intros Edry f f'. apply touch_unlink. exact (Hp Edry). }
     apply pres_bind; [assumption | apply pres_query; assumption | intros e].
     apply pres_bind; [assumption | | intros go].
     - destruct e.
